@@ -54,4 +54,20 @@ MCAllClean == [n \in Nets |-> TRUE]
 MCPersistent1 == [n \in Nets |-> ~(MCNetCid[n] = "c1")]      \* c1 connects with clean session off
 
 ChanBound == Len(chan) <= 4 /\ \A n \in Nets : Len(nets[n].ibuf) <= 2
+
+(* Liveness under fairness. The bounds on the event channel and the link buffers are part of the next-state relation   *)
+(* here (back-pressure), not a state constraint, so that ENABLED and the explored graph agree. Weakly fair: the router  *)
+(* thread (events, scheduling turns), every link task and every client (it reads, acknowledges and releases what it got; *)
+(* its own requests are bounded by the budgets MaxPub / MaxSubOps / MaxCloses). Then the system comes to rest: from some *)
+(* point on the router is idle and every client is done - and QuiescentComplete (an invariant) says nothing is owed.    *)
+LiveNext == Next /\ ChanBound'
+FairSpec == /\ Init /\ [][LiveNext]_vars
+            /\ WF_vars(REvent /\ ChanBound') /\ WF_vars(RConsume /\ ChanBound')
+            /\ \A n \in Nets : WF_vars(Link(n) /\ ChanBound') /\ WF_vars(Client(n) /\ ChanBound')
+\* negative control: without fairness of the scheduling turns the properties below must fail (they are not vacuous)
+UnfairSpec == /\ Init /\ [][LiveNext]_vars
+              /\ WF_vars(REvent /\ ChanBound')
+              /\ \A n \in Nets : WF_vars(Link(n) /\ ChanBound') /\ WF_vars(Client(n) /\ ChanBound')
+ComesToRest == <>[]Quiescent
+EveryAckArrives == \A n \in Nets : [](G.owed[n] # <<>> => <>(G.owed[n] = <<>> \/ nets[n].phase # "up" \/ ~nets[n].held))
 =============================================================================
